@@ -216,6 +216,9 @@ class IMAPConnection:
                     raise AuthenticationError() from exc
                 else:
                     responses.append(ChallengeResponse(chal.data, resp_dec))
+            except ValueError as exc:
+                # e.g. the response was not valid UTF-8
+                raise AuthenticationError('Invalid response.') from exc
             else:
                 if final is not None:
                     cont = ResponseContinuation(b64encode(final))
